@@ -1129,7 +1129,7 @@ impl<'ast, 'p> Visit<'ast> for Ctx<'p> {
         // R19: str pattern methods with a literal pattern -> typed forwarding helpers (Pattern is generic)
         if verified && m.args.len() == 1 {
             let name = m.method.to_string();
-            if ["ends_with", "starts_with", "contains", "trim_end_matches", "trim_start_matches"].contains(&name.as_str()) {
+            if ["ends_with", "starts_with", "contains", "trim_end_matches", "trim_start_matches", "trim_matches"].contains(&name.as_str()) {
                 let arg = &m.args[0];
                 let kind = match arg {
                     syn::Expr::Lit(syn::ExprLit { lit: syn::Lit::Char(_), .. }) => Some("char"),
